@@ -133,3 +133,12 @@ add("C14", "exploration",
     "The predicate is liberal about letter case of media types (the code may recognise fewer documents as HTML, never more). The handler-level "
     "pipeline (ModifyResponse then ResponseWriter) is rebuilt by the harness the way agent.go wires it.",
     "property-based testing (rapid) + native go fuzzing: differential feature-on vs. wrapped response under a reference predicate; splice-validity oracle", "3/C14")
+add("C15", "exploration",
+    "Generated sets of 1-16 concurrent connections (write-size vectors around the 1024-byte websocket buffers up to 1 MiB over all byte "
+    "values, read-buffer sizes 1..64 KiB, pauses, both directions at once) run through the real tcp-bridge-frontend and tcp-bridge-backend "
+    "binaries (-race) to a harness TCP server; every stream is a deterministic function of connection id and direction and is compared by "
+    "length, content and hash at the receiver. Non-bridge HTTP requests sent to the bridge backend are compared at a recording raw backend. "
+    "connection.WebsocketNetConn is additionally exercised in-process (rapid + native fuzz target) for write/read reassembly.",
+    "Completion is detected by byte count (not by close, which is property C16). X-Forwarded-For, which the passthrough reverse proxy "
+    "appends to, is not generated.",
+    "property-based testing (rapid) + native go fuzzing: generated write/read segmentations, round-trip equality of byte streams", "3/C15")
